@@ -398,7 +398,9 @@ type verifAuthConn struct {
 	ok bool
 }
 
-func (c *verifAuthConn) Authorize(ctx context.Context, username string, password []byte) bool { return c.ok }
+func (c *verifAuthConn) Authorize(ctx context.Context, username string, password []byte) bool {
+	return c.ok
+}
 
 // VerifC18Jail: a sequence of LOGIN attempts (any user names, right or wrong credentials) against Backend.getUserID:
 // wrong credentials never yield a user id, and after three consecutive failures the attempt reports the jail and the
